@@ -1,0 +1,31 @@
+//go:build verif
+
+package limiters
+
+// Scheduling hooks for the /verif limits harness (property C11, build tag
+// verif only). They let the harness observe whether a bucket limiter is being
+// constructed while the set-wide mutex is held and, if it is not, park the
+// constructing goroutine so that a concurrent Take of the same new key runs
+// inside that window. Nothing here changes behaviour unless a hook is installed.
+
+// VerifLockFree reports whether the set-wide mutex is free at this instant.
+func (r *BucketSet) VerifLockFree() bool {
+	if r.mLck.TryLock() {
+		r.mLck.Unlock()
+		return true
+	}
+	return false
+}
+
+// VerifHookNew makes every construction of a bucket limiter call hook first
+// (in the constructing goroutine). Must be called before the set is used.
+func (r *BucketSet) VerifHookNew(hook func(r *BucketSet)) {
+	orig := r.New
+	if orig == nil {
+		return
+	}
+	r.New = func() L {
+		hook(r)
+		return orig()
+	}
+}
